@@ -96,6 +96,14 @@ def scenarios():
                     d, c = render_callable(name, kind, decos, params, dbc)
                     return ("{}/{}".format(tag, deco_name), kind, dbc, name, d, "(" + ", ".join(c.replace("ARGS", a) for a in args_list) + ")", stage, exc)
 
+                def mk_twice(tag, params, args, stage, exc):
+                    """The same misuse call made again after it was refused: it is refused again."""
+                    nonlocal n
+                    n += 1
+                    name = "f{}".format(n)
+                    d, c = render_callable(name, kind, decos, params, dbc)
+                    return ("{}/{}".format(tag, deco_name), kind, dbc, name, d, "TWICE(lambda: {})".format(c.replace("ARGS", args)), stage, exc)
+
                 single = kind == "setter"  # a setter has exactly one parameter
                 # reserved parameter names: rejected when decorated
                 for reserved in ("_ARGS", "_KWARGS"):
@@ -137,7 +145,12 @@ def scenarios():
                         # ... also when valid calls of the same callable went before
                         yield mk_seq("second-call-kwarg-" + reserved, "x, **kwargs", ["1, other=2", "1", "1, {}=2".format(reserved)],
                                      "call" if has_post else "none", "TypeError" if has_post else None)
+                        yield mk_twice("refused-call-repeated-kwarg-" + reserved, "x, **kwargs", "1, {}=2".format(reserved),
+                                       "call" if has_post else "none", "TypeError" if has_post else None)
+                        yield mk_twice("refused-call-repeated-param-default-" + reserved, "x, {}=3".format(reserved), "1",
+                                       "call" if has_post else "none", "TypeError" if has_post else None)
                     for reserved in ("_ARGS", "_KWARGS"):
+                        yield mk_twice("refused-call-repeated-kwarg-" + reserved, "x, **kwargs", "1, {}=2".format(reserved), "call", "TypeError")
                         yield mk_seq("second-call-kwarg-" + reserved, "x, **kwargs", ["1, other=2", "1, {}=2".format(reserved)], "call", "TypeError")
                     # positive controls
                     yield mk("control-kwargs", "x, **kwargs", "1, other=2", "none", None)
@@ -228,6 +241,15 @@ import icontract
 from vkit.probe import drive
 
 STAGE = {}
+
+
+def TWICE(thunk):
+    """Make the call, swallow its TypeError, make the very same call again (in the same thread, outside any task)."""
+    try:
+        thunk()
+    except TypeError:
+        pass
+    return thunk()
 '''
 
 
